@@ -38,6 +38,71 @@ def binding_path_cases(rng, _n):
     return cases
 
 
+def range_in_slice_cases(rng, _n):
+    """Range-shaped elements written directly in a slice pattern (`..N`, `..=N`, `M..`, `M..N`) next to
+    the rest marker `..`: only a bare `..` is the rest; every other range is an element pattern that
+    must be checked and counts towards the length."""
+    import tgen
+    cases = []
+    k = 0
+
+    def rng_text(lo, hi, incl):
+        return ("" if lo is None else str(lo)) + ("..=" if incl else "..") + ("" if hi is None else str(hi))
+
+    shapes = [(None, 5, False), (None, 5, True), (3, None, False), (3, 6, False), (3, 6, True)]
+    values = [[], [4], [5], [7], [4, 7], [5, 7], [7, 4], [4, 7, 9], [9, 7, 4], [2, 7]]
+    for (lo, hi, incl) in shapes:
+        rt = rng_text(lo, hi, incl)
+        for pat_elems in ([rt], [rt, "7"], ["7", rt], [rt, ".."], ["..", rt], [rt, "..", "9"], [rt, rt]):
+            for val in values:
+                if len(cases) >= 400:
+                    break
+                c = t3.Case()
+                c.id = k
+                k += 1
+                c.forms = {"range-in-slice": 1}
+                c.perturbed = True
+                ms = ["(r %s %s %s %s)" % (tgen.hexs(rt), "none" if lo is None else "(int %d)" % lo, "none" if hi is None else "(int %d)" % hi, "true" if incl else "false")]
+                for lit in ("7", "9"):
+                    ms.append("(v %s (int %s))" % (tgen.hexs(lit), lit))
+                c.meanings = "(meanings %s)" % " ".join(ms)
+                t3.finish_case(c, "", "Vec<i32>", "vec![%s]" % ", ".join("%di32" % x for x in val) if val else "Vec::<i32>::new()",
+                               "(seq %s)" % " ".join("(int %d)" % x for x in val), "[%s]" % ", ".join(pat_elems))
+                cases.append(c)
+    return cases
+
+
+def set_history_cases(rng, _n):
+    """A matching set assertion after earlier set assertions on the same thread (larger, smaller,
+    equal collections; passing and failing): the verdict must not depend on the history."""
+    import tgen
+    cases = []
+    k = 0
+    priors = ["", "assert_struct!(vec![1, 2, 3, 4, 5], #(1, ..));", "assert_struct!(vec![1, 2, 3, 4, 5, 6, 7, 8, 9], #(9, 1, ..));",
+              "assert_struct!(vec![3], #(3));", "let _ = std::panic::catch_unwind(|| { assert_struct!(vec![1, 2, 3, 4, 5, 6], #(7, ..)); });",
+              "assert_struct!(vec![vec![1, 2, 3, 4], vec![5]], #([5], [1, ..]));"]
+    # (pattern, meanings, values): first-fit dead ends that need backtracking, with and without rest
+    current = [
+        ("#(> 5, == 10)", [("5", 5), ("10", 10)], [[10, 7], [7, 10]]),
+        ("#(> 5, == 10, ..)", [("5", 5), ("10", 10)], [[10, 7, 1], [1, 10, 7], [10, 7]]),
+        ("#(>= 1, >= 2, >= 3)", [("1", 1), ("2", 2), ("3", 3)], [[3, 2, 1], [3, 1, 2], [1, 2, 3]]),
+        ("#(< 9, == 2, ..)", [("9", 9), ("2", 2)], [[2, 8], [2, 8, 11, 12]]),
+    ]
+    for prior in priors:
+        for (pat, lits, vals) in current:
+            for val in vals:
+                c = t3.Case()
+                c.id = k
+                k += 1
+                c.forms = {"set-after-history": 1}
+                c.perturbed = False
+                c.meanings = "(meanings %s)" % " ".join("(v %s (int %d))" % (tgen.hexs(t), v) for t, v in lits)
+                t3.finish_case(c, "", "Vec<i32>", "vec![%s]" % ", ".join("%di32" % x for x in val), "(seq %s)" % " ".join("(int %d)" % x for x in val), pat)
+                c.setup = prior
+                cases.append(c)
+    return cases
+
+
 def check(ck, aspect, theorems, t2_parts=("body", "status", "validity")):
     ck.prove(theorems)
     ck.build_harness("inproc")
@@ -87,6 +152,29 @@ def check(ck, aspect, theorems, t2_parts=("body", "status", "validity")):
                 ck.report("binding-path", "a value pattern that is a path (an identifier or a zero-argument call) binds instead of comparing: the assertion cannot fail", t3.describe(c))
         ck.corr_record("T3 path-valued patterns (identifier, zero-argument call, constant as a field's value pattern)", len(bp), len(bp), len(mism), dict(stats),
                        samples=[dict(invocation="assert_struct!(%s)" % c.text, setup=getattr(c, "setup", ""), impl=c.got[0], spec=str(c.expect)[:120]) for c in bp[:2]], rule="4 fixed programs")
+    for (name, maker, what) in (("range-in-slice", range_in_slice_cases, "range-shaped slice elements next to the rest marker"),
+                                ("set-history", set_history_cases, "matching set assertions after earlier set assertions on the same thread")):
+        fam = t3.run_corpus(ck, name, 0, per_bin=40, positions=maker)
+        stats, mism = t3.compare(ck, fam, name)
+        for m in mism:
+            c = m["case"]
+            kind = m["kind"]
+            gk = c.got[0]
+            key = None
+            if aspect == "C01" and kind == "verdict" and gk == "pass":
+                key, text = "passes-but-does-not-match", "the assertion returned normally although the value does not satisfy the pattern"
+            elif aspect == "C02" and (kind == "verdict" and gk == "fail" or kind == "crashed"):
+                key, text = "fails-but-matches", "the assertion failed although the value satisfies the pattern"
+            elif aspect == "C03" and kind == "entries":
+                key, text = "wrong-entries", "the report's entries are not the failure frontier"
+            elif aspect == "C19" and kind == "label":
+                key, text = "wrong-label", "an entry's statement about the expected side does not agree with the pattern as written"
+            if key:
+                found_input = True
+                ck.report("%s:%s" % (key, name), text + " (%s)" % what, dict(t3.describe(c), setup=getattr(c, "setup", "")))
+        ck.corr_record("T3 %s (%s)" % (name, what), len(fam), len(fam), len(mism), dict(stats),
+                       samples=[dict(invocation="assert_struct!(%s)" % c.text, value=c.value_text, setup=getattr(c, "setup", ""), impl=c.got[0], spec=str(c.expect)[:120]) for c in fam[:2]],
+                       rule="systematic family, every case distinct")
     ck.notes.append("forms exercised: " + ", ".join("%s=%d" % kv for kv in sorted(forms.items())))
     if t2_mm and not found_input:
         ck.report("corr:T2-body", "the model of the code generator no longer matches the real expansion (%d inputs differ); the theorems of %s are about a model the code has moved away from" % (len(t2_mm), aspect),
